@@ -11,11 +11,14 @@ cargo test --workspace --no-fail-fast --offline > $D/confirm_test$K.log 2>&1
 grep -E "^test .*FAILED" $D/confirm_test$K.log | sort | uniq -c
 PASS=$(grep -E "^test result" $D/confirm_test$K.log | awk '{s+=$4} END{print s}')
 echo "tests passed with mutant: $PASS"
-cargo build -q --offline -p jrsonnet 2>/dev/null
+PKGS="-p jrsonnet -p jrsonnet-fmt -p jrsonnet-deps -p libjsonnet"
+cargo build -q --offline $PKGS 2>/dev/null
 if [ -f $D/demo$K.jsonnet ]; then (cd $D && timeout 60 $WT/target/debug/jrsonnet demo$K.jsonnet > confirm_demo$K.mutant.out 2>&1; echo "rc=$?" >> confirm_demo$K.mutant.out); fi
+if [ -f $D/demo$K.sh ]; then (cd $D && timeout 900 bash demo$K.sh $WT/target/debug > confirm_demosh$K.mutant.out 2>&1; echo "rc=$?" > confirm_demosh$K.mutant.rc); fi
 git checkout -q -- . 
-cargo build -q --offline -p jrsonnet 2>/dev/null
+cargo build -q --offline $PKGS 2>/dev/null
 if [ -f $D/demo$K.jsonnet ]; then (cd $D && timeout 60 $WT/target/debug/jrsonnet demo$K.jsonnet > confirm_demo$K.pristine.out 2>&1; echo "rc=$?" >> confirm_demo$K.pristine.out); cmp -s $D/confirm_demo$K.mutant.out $D/confirm_demo$K.pristine.out && echo "DEMO-SAME (not confirmed)" || echo "demo differs: confirmed"; fi
+if [ -f $D/demo$K.sh ]; then (cd $D && timeout 900 bash demo$K.sh $WT/target/debug > confirm_demosh$K.pristine.out 2>&1; echo "rc=$?" > confirm_demosh$K.pristine.rc); echo "demo.sh mutant $(cat $D/confirm_demosh$K.mutant.rc) pristine $(cat $D/confirm_demosh$K.pristine.rc)"; [ "$(cat $D/confirm_demosh$K.pristine.rc)" = "rc=0" ] && [ "$(cat $D/confirm_demosh$K.mutant.rc)" != "rc=0" ] && echo "demo differs: confirmed" || echo "DEMO-SAME (not confirmed)"; fi
 echo "== run checks on /repo with mutant"
 cd /repo && git status --short | grep -v '^??' && { echo "/repo dirty"; exit 4; }
 git apply $D/mutant$K.diff || { echo "APPLY-FAILED in /repo"; exit 5; }
